@@ -17,11 +17,13 @@ import (
 
 	"github.com/nspcc-dev/neo-go/pkg/core/block"
 	"github.com/nspcc-dev/neo-go/pkg/core/native/nativehashes"
+	"github.com/nspcc-dev/neo-go/pkg/core/native/noderoles"
 	"github.com/nspcc-dev/neo-go/pkg/core/transaction"
 	"github.com/nspcc-dev/neo-go/pkg/crypto/hash"
 	"github.com/nspcc-dev/neo-go/pkg/io"
 	"github.com/nspcc-dev/neo-go/pkg/neotest"
 	"github.com/nspcc-dev/neo-go/pkg/smartcontract"
+	"github.com/nspcc-dev/neo-go/pkg/smartcontract/trigger"
 	"github.com/nspcc-dev/neo-go/pkg/util"
 	"pgregory.net/rapid"
 
@@ -56,6 +58,9 @@ type Plan struct {
 	// TailSeed seeds the decision stream that answers once the explicit tape is used up (0: every further decision is
 	// the default one - no optional fault, no optional check)
 	TailSeed uint64 `json:"plan_tail_seed,omitempty"`
+	// OracleSetup > 0: block 4 designates Oracle nodes (1-3 keyring accounts), makes sure a helper contract exists and,
+	// for some values, sets a non-default request price (see oracleSetupTxs)
+	OracleSetup int `json:"oracle_setup,omitempty"`
 }
 
 // Engine implements sim.Engine.
@@ -116,6 +121,25 @@ func (e Engine) Draw(rt *rapid.T, prop, tier string) any {
 	p := e.drawPlan(rt, prop, tier).(*Plan)
 	if rapid.IntRange(0, 3).Draw(rt, "tailon") != 0 {
 		p.TailSeed = rapid.Uint64Range(1, 1<<40).Draw(rt, "plantail")
+	}
+	if rapid.IntRange(0, 4).Draw(rt, "orasetup") >= 2 {
+		p.OracleSetup = rapid.IntRange(1, 72).Draw(rt, "orasetupsel")
+		// such plans use the Oracle contract on purpose: after the setup block, blocks get extra request / response ops
+		for i := 3; i < len(p.Blocks); i++ {
+			k := rapid.IntRange(0, 11).Draw(rt, "oraop")
+			if k < 5 {
+				continue
+			}
+			o := drawOpGeneral(rt, p.Proto.P2PSig)
+			o.Kind = OpOracleRequest
+			if k >= 8 {
+				o.Kind = OpOracleResponse
+			}
+			at := rapid.IntRange(0, len(p.Blocks[i].Ops)).Draw(rt, "oraat")
+			ops := append([]Op{}, p.Blocks[i].Ops[:at]...)
+			ops = append(ops, o)
+			p.Blocks[i].Ops = append(ops, p.Blocks[i].Ops[at:]...)
+		}
 	}
 	return p
 }
@@ -201,7 +225,11 @@ type run struct {
 	soft         *sim.Violation // recorded-finding class seen in this run (reported only if nothing else fails)
 	c06Delivered bool
 	c06Victim    *transaction.Transaction
-	afterX       []*transaction.Transaction // C04: halting transactions that follow X / its twin in the block
+	// height of the last block in which the producer executed a locally built oracle response whose Result is nil
+	oraNilResultAt uint32
+	// heights of the blocks holding a response to a request older than MaxTraceableBlocks
+	oraStaleAt map[uint32]bool
+	afterX     []*transaction.Transaction // C04: halting transactions that follow X / its twin in the block
 }
 
 func (r *run) violate(v *sim.Violation) {
@@ -285,11 +313,12 @@ func (r *run) newNode(name string, l Local) *Node {
 func (r *run) setupProducer() {
 	r.P = r.newNode("P", Local{Backend: simdisk.Memory, VerifyTx: true})
 	r.prod = newProducer(r.P)
+	r.prod.probes = r.out.Probes
 	r.w = &world{contracts: map[util.Uint160]int32{}}
 	for i := 0; i < numAccounts; i++ {
 		r.w.accounts = append(r.w.accounts, r.prod.kr.acctHash(i))
 	}
-	r.w.accounts = append(r.w.accounts, r.P.Exec.Validator.ScriptHash(), r.P.Exec.CommitteeHash, nativehashes.Notary)
+	r.w.accounts = append(r.w.accounts, r.P.Exec.Validator.ScriptHash(), r.P.Exec.CommitteeHash, nativehashes.Notary, nativehashes.OracleContract)
 }
 
 // bootstrap produces block 1: the validators' multisig funds every account.
@@ -358,10 +387,35 @@ func (r *run) notarySetupTxs() []*transaction.Transaction {
 	return txs
 }
 
+// oracleSetupTxs (block 4 of plans with OracleSetup > 0): the committee designates Oracle nodes, a helper contract is
+// deployed if none exists and, for some selector values, the committee sets a request price other than the default.
+func (r *run) oracleSetupTxs() []*transaction.Transaction {
+	var txs []*transaction.Transaction
+	sel := r.plan.OracleSetup - 1
+	if tx, _ := r.prod.buildTx(Op{Kind: OpDesignate, A: 1, B: (sel / 3) % numAccounts, X: 1, Y: sel % 3}, nil); tx != nil {
+		txs = append(txs, tx)
+	}
+	if _, ok := r.prod.liveK(0); !ok {
+		if tx, _ := r.prod.buildTx(Op{Kind: OpDeploy, A: 3, B: 0}, nil); tx != nil {
+			txs = append(txs, tx)
+		}
+	}
+	if ps := (sel / 18) % 4; ps != 0 {
+		if tx, _ := r.prod.buildTx(Op{Kind: OpPolicy, A: 4, X: 5, Y: 3, N: int64(ps - 1)}, nil); tx != nil {
+			txs = append(txs, tx)
+		}
+	}
+	r.out.Probes["oracle_setup_block"]++
+	return txs
+}
+
 // produce builds, signs and adds the next block on P and records the reference observation.
 func (r *run) produce(bp BlockPlan, pre []*transaction.Transaction) (*block.Block, bool) {
 	P := r.P
 	bc := P.BC
+	if r.plan.OracleSetup > 0 && bc.BlockHeight() == 3 {
+		pre = append(pre, r.oracleSetupTxs()...)
+	}
 	for _, tx := range pre {
 		if err := bc.PoolTx(tx); err != nil {
 			if bc.BlockHeight() == 0 {
@@ -384,10 +438,21 @@ func (r *run) produce(bp BlockPlan, pre []*transaction.Transaction) (*block.Bloc
 			r.log.Addf("op %s: not applicable", opNames[o.Kind])
 			continue
 		}
+		notPending := o.Kind == OpOracleResponse && tx.Hash() == r.prod.ora.unknownTx
 		if err := bc.PoolTx(tx); err != nil {
 			r.out.Probes["tx_rejected_by_pool"]++
 			r.log.Addf("op %s: rejected by pool: %v", desc, errClass(err))
+			if notPending {
+				r.out.Probes["oracle_response_unknown_id_rejected"]++
+			} else if o.Kind == OpOracleResponse {
+				r.out.Probes["oracle_response_rejected_by_pool"]++
+			}
 			continue
+		}
+		if notPending {
+			// (C07's admission clause; raised by whichever check generated the history, like pool-block-rejected)
+			r.violate(sim.Violatef("invalid-tx-pooled", "invalid-tx-pooled/oracle-response-without-request", "the pool accepted %s: that request was answered in an earlier block or never made", desc))
+			return nil, false
 		}
 		r.out.Probes["op_"+opNames[o.Kind]]++
 		r.log.Addf("op %s", desc)
@@ -415,8 +480,23 @@ func (r *run) produce(bp BlockPlan, pre []*transaction.Transaction) (*block.Bloc
 	sim.Wait()
 	for _, tx := range txs {
 		r.prod.txLog = append(r.prod.txLog, tx.Hash())
+		if r.prod.ora.stale[tx.Hash()] {
+			if r.oraStaleAt == nil {
+				r.oraStaleAt = map[uint32]bool{}
+			}
+			r.oraStaleAt[b.Index] = true
+			r.out.Probes["oracle_response_to_request_older_than_max_traceable"]++
+		}
+		if r.prod.ora.nilResult[tx.Hash()] {
+			r.oraNilResultAt = b.Index
+			r.out.Probes["oracle_response_nil_result_executed_by_its_builder"]++
+		}
 	}
 	r.prod.afterBlock(r, b)
+	r.prod.oracleSync()
+	if ns, _, err := bc.GetDesignatedByRole(noderoles.Oracle); err == nil && len(ns) > 0 {
+		r.out.Probes["oracle_nodes_designated"]++
+	}
 	w := io.NewBufBinWriter()
 	b.EncodeBinary(w.BinWriter)
 	r.raw[b.Index] = w.Bytes()
@@ -559,6 +639,9 @@ func (p *producer) variant(i int, v byte) *kContract {
 // runReplicated is the C01/C03/C05/C11 scenario: P produces, replicas follow.
 func (r *run) runReplicated() {
 	r.setupProducer()
+	// (only where the property is the one this breaks, see oraState.asOracleNode and finding F-ora-1)
+	r.prod.ora.asOracleNode = r.prop == "C01"
+	r.prod.ora.answerStale = r.prop == "C01" // (finding F-ora-2)
 	var reps []*Node
 	for i, l := range r.plan.Locals {
 		reps = append(reps, r.newNode(fmt.Sprintf("R%d", i), l))
@@ -734,8 +817,74 @@ func (r *run) compare(n *Node, h uint32, when string) {
 				msg += "\n  " + s + " diff: " + clip(listDiff(strings.Fields(obs.Detail[s]), strings.Fields(ref.Detail[s])))
 			}
 		}
-		r.violate(sim.Violatef("divergence", "divergence/"+when+"/"+d[0], "%s", msg))
+		sig := "divergence/" + when + "/" + d[0]
+		if h == r.oraNilResultAt && onlyOracleResultKeyDiffers(d, obs, ref) {
+			// finding F-ora-1: the producer executed a response transaction it had built itself with Result == nil (as
+			// services/oracle does); the callback's Storage.Put of that result is a deletion there and an empty value
+			// on every node that decoded the transaction from bytes
+			sig += "+oracle-response-nil-result-on-its-builder"
+		}
+		if r.oracleOriginalTxNotKept(n, h) {
+			sig += "+oracle-original-tx-not-kept"
+		}
+		r.violate(sim.Violatef("divergence", sig, "%s", msg))
 	}
+}
+
+// oracleOriginalTxNotKept (finding F-ora-2): block h holds a response to a request older than MaxTraceableBlocks, and
+// node n - unlike the producer - fails it with "oracle request not found": Oracle.finish looks the request's
+// transaction up in the node's transaction store, and n (pruning, or synchronised from a state) does not keep it.
+func (r *run) oracleOriginalTxNotKept(n *Node, h uint32) bool {
+	b := r.blks[h]
+	if !r.oraStaleAt[h] || b == nil {
+		return false
+	}
+	const text = "oracle request not found"
+	for _, tx := range b.Transactions {
+		if !r.prod.ora.stale[tx.Hash()] {
+			continue
+		}
+		an, err := n.BC.GetAppExecResults(tx.Hash(), trigger.Application)
+		if err != nil || len(an) != 1 {
+			continue
+		}
+		ap, err := r.P.BC.GetAppExecResults(tx.Hash(), trigger.Application)
+		if err != nil || len(ap) != 1 {
+			continue
+		}
+		if strings.Contains(an[0].FaultException, text) && !strings.Contains(ap[0].FaultException, text) {
+			return true
+		}
+	}
+	return false
+}
+
+// onlyOracleResultKeyDiffers: the observations differ in nothing but the helper contracts' "ores" items (and hence
+// the state root).
+func onlyOracleResultKeyDiffers(d []string, obs, ref *Observation) bool {
+	for _, s := range d {
+		if s != "stateroot" && s != "storage" {
+			return false
+		}
+	}
+	n := 0
+	for _, dumps := range [2][2][]string{{obs.Dump, ref.Dump}, {ref.Dump, obs.Dump}} {
+		other := map[string]bool{}
+		for _, x := range dumps[1] {
+			other[x] = true
+		}
+		for _, x := range dumps[0] {
+			if other[x] {
+				continue
+			}
+			i := strings.Index(x, "/")
+			if i < 0 || !strings.HasPrefix(x[i+1:], fmt.Sprintf("%x=", "ores")) {
+				return false
+			}
+			n++
+		}
+	}
+	return n > 0
 }
 
 func clip(s string) string {
